@@ -34,7 +34,7 @@ fn typ_name(t: IceCandidateType) -> &'static str {
 // symbolic cases (replayable: no addresses inside)
 
 #[derive(Clone, Copy, Debug, PartialEq)] pub enum User { None, Wrong, Ok }
-#[derive(Clone, Copy, Debug, PartialEq)] pub enum Mi { None, Corrupt, WrongKey, Ok }
+#[derive(Clone, Copy, Debug, PartialEq)] pub enum Mi { None, Corrupt, WrongKey, Ok, RemoteKey }
 #[derive(Clone, Copy, Debug, PartialEq)] pub enum Sk { Udp0, Udp1, Tcp, Turn, Shared, Listener }
 #[derive(Clone, Debug, PartialEq)]
 pub enum What {
@@ -43,11 +43,15 @@ pub enum What {
     Ind, Garbage(Vec<u8>), Empty, Data(Vec<u8>),
     /// hand-laid-out Binding request with a malformed / unusual credential layout (index into `LAYOUTS`)
     Raw { layout: u8, uc: bool },
+    /// one `run_keepalive_tick` of the runner
+    Tick,
 }
 #[derive(Clone, Debug)] pub struct Pkt { pub sock: Sk, pub src: u8, pub what: What }
 #[derive(Clone, Debug)]
 pub struct Case {
     pub controlling: bool, pub state: u8, pub latching: bool, pub nominated: bool, pub webrtc: bool,
+    pub tmo: u8,                 // 0: ice_connection_timeout 1 h, 1: 1.5 s (an aged, never-refreshed transport is past it)
+    pub rp: bool,                // remote ICE parameters are set (credentialed keepalives; requests signed with the REMOTE password must not pass)
     pub locals: u8,              // bit0 udp0 host, bit1 udp1 host, bit2 tcp passive host, bit3 relay
     pub remotes: u8,             // bit i: peer i known (host, udp); bit3: tcp peer known (host, tcp); bit 4: peer0 entry is srflx with low priority
     pub selected: Option<(u8, u8)>,
@@ -57,8 +61,8 @@ pub struct Case {
 
 impl Case {
     pub fn text(&self) -> String {
-        let mut s = format!("c{},s{},l{},n{},L{},R{},S{},P{},w{}", self.controlling as u8, self.state, self.latching as u8, self.nominated as u8,
-            self.locals, self.remotes, self.selected.map(|(a, b)| format!("{a}.{b}")).unwrap_or_else(|| "-".into()), self.pending, self.webrtc as u8);
+        let mut s = format!("c{},s{},l{},n{},L{},R{},S{},P{},w{},t{},r{}", self.controlling as u8, self.state, self.latching as u8, self.nominated as u8,
+            self.locals, self.remotes, self.selected.map(|(a, b)| format!("{a}.{b}")).unwrap_or_else(|| "-".into()), self.pending, self.webrtc as u8, self.tmo, self.rp as u8);
         for p in &self.pkts {
             let sk = match p.sock { Sk::Udp0 => "u0", Sk::Udp1 => "u1", Sk::Tcp => "tcp", Sk::Turn => "turn", Sk::Shared => "sh", Sk::Listener => "li" };
             let w = match &p.what {
@@ -66,6 +70,7 @@ impl Case {
                 What::Resp { tx, error, method } => format!("resp.{tx}.{}.{method}", *error as u8),
                 What::Ind => "ind".into(), What::Garbage(b) => format!("gar.{}", hex(b)), What::Empty => "empty".into(), What::Data(b) => format!("data.{}", hex(b)),
                 What::Raw { layout, uc } => format!("raw.{layout}.{}", *uc as u8),
+                What::Tick => "tick".into(),
             };
             s.push_str(&format!(" {sk}<{}:{w}", p.src));
         }
@@ -83,15 +88,17 @@ impl Case {
             let f: Vec<&str> = w.split('.').collect();
             let sock = match sk { "u0" => Sk::Udp0, "u1" => Sk::Udp1, "tcp" => Sk::Tcp, "sh" => Sk::Shared, "li" => Sk::Listener, _ => Sk::Turn };
             let what = match f[0] {
-                "req" => What::Req { user: [User::None, User::Wrong, User::Ok][f[1].parse::<usize>().ok()?], mi: [Mi::None, Mi::Corrupt, Mi::WrongKey, Mi::Ok][f[2].parse::<usize>().ok()?], uc: f[3] == "1", method: f[4].parse().ok()? },
+                "req" => What::Req { user: [User::None, User::Wrong, User::Ok][f[1].parse::<usize>().ok()?], mi: [Mi::None, Mi::Corrupt, Mi::WrongKey, Mi::Ok, Mi::RemoteKey][f[2].parse::<usize>().ok()?], uc: f[3] == "1", method: f[4].parse().ok()? },
                 "resp" => What::Resp { tx: f[1].parse().ok()?, error: f[2] == "1", method: f[3].parse().ok()? },
                 "raw" => What::Raw { layout: f[1].parse().ok()?, uc: f[2] == "1" },
+                "tick" => What::Tick,
                 "ind" => What::Ind, "gar" => What::Garbage(unhex(f[1])), "empty" => What::Empty, _ => What::Data(unhex(f[1])),
             };
             pkts.push(Pkt { sock, src: src.parse().ok()?, what });
         }
         Some(Case { controlling: n(head[0])? == 1, state: n(head[1])?, latching: n(head[2])? == 1, nominated: n(head[3])? == 1, locals: n(head[4])?,
-            remotes: n(head[5])?, selected, pending: n(head[7])?, webrtc: head.get(8).and_then(|h| n(h)).unwrap_or(1) == 1, pkts })
+            remotes: n(head[5])?, selected, pending: n(head[7])?, webrtc: head.get(8).and_then(|h| n(h)).unwrap_or(1) == 1,
+            tmo: head.get(9).and_then(|h| n(h)).unwrap_or(0), rp: head.get(10).and_then(|h| n(h)).unwrap_or(0) == 1, pkts })
     }
 }
 
@@ -105,7 +112,8 @@ impl PacketReceiver for Capture { async fn receive(&self, _p: Bytes, _a: SocketA
 pub struct Env {
     rt: tokio::runtime::Runtime,
     locals: [Arc<UdpSocket>; 2],
-    peers: [std::net::UdpSocket; 4],    // peers[3]: same port as peers[0] on 127.0.0.2 (the latching condition)
+    peers: [std::net::UdpSocket; 4],
+    tcp_peer_udp: Option<std::net::UdpSocket>,    // peers[3]: same port as peers[0] on 127.0.0.2 (the latching condition)
     tcp_server: IceSocketWrapper, tcp_client: std::net::TcpStream, tcp_local: SocketAddr, tcp_peer: SocketAddr,
     turn_client: Arc<TurnClient>, turn_server: std::net::UdpSocket, relayed: SocketAddr,
     shared: IceSocketWrapper, shared_addr: SocketAddr, _shared_reg: Box<dyn std::any::Any + Send>, listener: Arc<TcpListener>,
@@ -137,7 +145,8 @@ impl Env {
             (locals, peers, tcp_server, tcp_client, tcp_local, tcp_peer, turn_client, turn_server, shared, shared_addr, shared_reg, Arc::new(listener))
         });
         let relayed: SocketAddr = "198.51.100.4:49152".parse().unwrap();
-        Env { rt, locals, peers, tcp_server, tcp_client, tcp_local, tcp_peer, turn_client, turn_server, relayed, shared, shared_addr, _shared_reg: shared_reg, listener }
+        let tcp_peer_udp = std::net::UdpSocket::bind(tcp_peer).ok().map(|s| { s.set_nonblocking(true).unwrap(); s });
+        Env { rt, locals, peers, tcp_peer_udp, tcp_server, tcp_client, tcp_local, tcp_peer, turn_client, turn_server, relayed, shared, shared_addr, _shared_reg: shared_reg, listener }
     }
     fn peer_addr(&self, i: u8, sock: Sk) -> SocketAddr {
         if sock == Sk::Tcp { self.tcp_peer } else { self.peers[(i % 4) as usize].local_addr().unwrap() }
@@ -175,7 +184,7 @@ impl Env {
 
 #[derive(Clone, Debug, PartialEq)]
 pub struct Obs { state: IceTransportState, nom: Option<bool>, sel: Option<(SocketAddr, SocketAddr, IceCandidateType, bool, u32)>,
-                 rems: Vec<(SocketAddr, IceCandidateType, bool, u32)>, pending: Vec<[u8; 12]>, out: String }
+                 rems: Vec<(SocketAddr, IceCandidateType, bool, u32)>, pending: Vec<[u8; 12]>, selsock: Option<String>, out: String }
 
 fn state_name(s: IceTransportState) -> &'static str {
     match s { IceTransportState::New => "new", IceTransportState::Checking => "checking", IceTransportState::Connected => "connected",
@@ -184,34 +193,49 @@ fn state_name(s: IceTransportState) -> &'static str {
 impl Obs {
     fn text(&self) -> String {
         let c = |a: &SocketAddr, t: IceCandidateType, tcp: bool, p: u32| format!("{}:{}:{}:{}", addr_dot(a), typ_name(t), tcp as u8, p);
-        format!("{}/{}/{}/{}/{}/{}", state_name(self.state), match self.nom { None => "-", Some(true) => "t", Some(false) => "f" },
+        format!("{}/{}/{}/{}/{}/{}/{}", state_name(self.state), match self.nom { None => "-", Some(true) => "t", Some(false) => "f" },
             self.sel.as_ref().map(|(l, r, t, tcp, p)| format!("{}>{}", addr_dot(l), c(r, *t, *tcp, *p))).unwrap_or_else(|| "-".into()),
             if self.rems.is_empty() { "-".to_string() } else { self.rems.iter().map(|(a, t, tcp, p)| c(a, *t, *tcp, *p)).collect::<Vec<_>>().join(";") },
-            if self.pending.is_empty() { "-".to_string() } else { self.pending.iter().map(|t| hex(t)).collect::<Vec<_>>().join(";") }, self.out)
+            if self.pending.is_empty() { "-".to_string() } else { self.pending.iter().map(|t| hex(t)).collect::<Vec<_>>().join(";") },
+            match self.selsock.as_deref() { None => "-".to_string(), Some("udp") => "udp".into(), Some(k) if k.starts_with("tcp-stream") => "tcp".into(), Some(k) => k.to_string() }, self.out)
     }
 }
 
-struct Built { transport: IceTransport, ufrag: String, pwd: String, init_tokens: String, pend: Vec<([u8; 12], tokio::sync::oneshot::Receiver<rustrtc::transports::ice::stun::StunDecoded>)>, cap: Arc<Capture> }
+struct Built { transport: IceTransport, ufrag: String, pwd: String, init_tokens: String, pend: Vec<([u8; 12], tokio::sync::oneshot::Receiver<rustrtc::transports::ice::stun::StunDecoded>)>, cap: Arc<Capture>, tx_rng: Rng }
 
-fn build(env: &Env, c: &Case, rng_tx: &mut Rng) -> Built {
-    let cfg = rustrtc::RtcConfigurationBuilder::new().enable_latching(c.latching)
+pub const REMOTE_UFRAG: &str = "remoteufrag0123";
+pub const REMOTE_PWD: &str = "remote-password-0123456789";
+/// nominal clock (ms): transports are created at 0 and used only after `AGE_MS` of real time
+pub const AGE_MS: u64 = 2100;
+const DISC_MS: u64 = 1000;
+
+fn build(env: &Env, c: &Case) -> Built {
+    let mut tx_rng = Rng::new(0xC06 ^ crate_hash(&c.text()));
+    let rng_tx = &mut tx_rng;
+    let mut cfg = rustrtc::RtcConfigurationBuilder::new().enable_latching(c.latching)
         .transport_mode(if c.webrtc { rustrtc::TransportMode::WebRtc } else { rustrtc::TransportMode::Rtp }).build();
+    let tmo_ms: u64 = if c.tmo == 1 { 1500 } else { 3_600_000 };
+    cfg.ice_disconnect_threshold = Duration::from_millis(DISC_MS);
+    cfg.ice_connection_timeout = Duration::from_millis(tmo_ms);
     let (transport, _runner) = IceTransport::new(cfg);
     transport.set_role(if c.controlling { IceRole::Controlling } else { IceRole::Controlled });
-    let st = [IceTransportState::New, IceTransportState::Checking, IceTransportState::Connected][(c.state % 3) as usize];
+    let st = STATES[(c.state % 7) as usize];
     transport.verif_set_state(st);
+    if c.rp { transport.set_remote_parameters(rustrtc::transports::ice::IceParameters::new(REMOTE_UFRAG, REMOTE_PWD)); }
     if c.nominated { transport.verif_set_nomination_complete(Some(true)); }
     let lp = transport.local_parameters();
-    let mut toks = format!("cfg,{},{},{},{},{},{},{}", if c.controlling { "controlling" } else { "controlled" }, state_name(st), c.latching as u8,
-        if c.nominated { "t" } else { "-" }, hex(lp.username_fragment.as_bytes()), hex(lp.password.as_bytes()), if c.webrtc { "webrtc" } else { "rtp" });
+    let mut toks = format!("cfg,{},{},{},{},{},{},{},{AGE_MS},{DISC_MS},{tmo_ms},{}", if c.controlling { "controlling" } else { "controlled" }, state_name(st), c.latching as u8,
+        if c.nominated { "t" } else { "-" }, hex(lp.username_fragment.as_bytes()), hex(lp.password.as_bytes()), if c.webrtc { "webrtc" } else { "rtp" }, c.rp as u8);
     let mut locals: Vec<IceCandidate> = vec![];
     for i in 0..2 { if c.locals & (1 << i) != 0 { let cand = IceCandidate::host(env.locals[i].local_addr().unwrap(), 1); transport.verif_add_local_udp(cand.clone(), env.locals[i].clone()); locals.push(cand); } }
     if c.locals & 4 != 0 { let cand = IceCandidate::host_tcp(env.tcp_local, 1, TcpType::Passive); transport.verif_add_local_candidate(cand.clone()); locals.push(cand); }
     if c.locals & 8 != 0 { let cand = chook::relay(env.relayed, 1, "udp"); transport.verif_add_local_candidate(cand.clone()); locals.push(cand); }
     if c.locals & 16 != 0 { let cand = IceCandidate::host(env.shared_addr, 1); transport.verif_add_local_candidate(cand.clone()); locals.push(cand); }
     for l in &locals {
-        toks.push_str(&format!(" loc,{},{},{},{},{},{}", addr3(&l.address), addr3(&l.base_address()), typ_name(l.typ), (l.transport == "tcp") as u8,
-            (l.tcp_type == Some(TcpType::Passive)) as u8, l.priority));
+        // `resolve_socket` finds a socket exactly for the two UDP host candidates whose sockets are registered
+        let has_socket = (0..2).any(|i| l.address == env.locals[i].local_addr().unwrap());
+        toks.push_str(&format!(" loc,{},{},{},{},{},{},{}", addr3(&l.address), addr3(&l.base_address()), typ_name(l.typ), (l.transport == "tcp") as u8,
+            (l.tcp_type == Some(TcpType::Passive)) as u8, l.priority, has_socket as u8));
     }
     let mut remotes: Vec<IceCandidate> = vec![];
     for i in 0..3u8 { if c.remotes & (1 << i) != 0 {
@@ -230,16 +254,19 @@ fn build(env: &Env, c: &Case, rng_tx: &mut Rng) -> Built {
     for _ in 0..c.pending { let tx: [u8; 12] = rng_tx.bytes(12).try_into().unwrap(); let rx = transport.verif_add_pending(tx); toks.push_str(&format!(" pend,{}", hex(&tx))); pend.push((tx, rx)); }
     let cap = Arc::new(Capture(PlMutex::new(0)));
     env.rt.block_on(transport.set_data_receiver(cap.clone()));
-    Built { transport, ufrag: lp.username_fragment, pwd: lp.password, init_tokens: toks, pend, cap }
+    Built { transport, ufrag: lp.username_fragment, pwd: lp.password, init_tokens: toks, pend, cap, tx_rng }
 }
 
 fn observe(t: &IceTransport, out: String) -> Obs {
     Obs { state: t.state(), nom: t.verif_nomination_complete(),
         sel: t.get_selected_pair().map(|p| (p.local.address, p.remote.address, p.remote.typ, p.remote.transport == "tcp", p.remote.priority)),
         rems: t.remote_candidates().iter().map(|c| (c.address, c.typ, c.transport == "tcp", c.priority)).collect(),
-        pending: t.verif_pending_ids(), out }
+        pending: t.verif_pending_ids(), selsock: t.verif_selected_socket_kind(), out }
 }
 
+const STATES: [IceTransportState; 7] = [IceTransportState::New, IceTransportState::Checking, IceTransportState::Connected, IceTransportState::Completed,
+    IceTransportState::Failed, IceTransportState::Disconnected, IceTransportState::Closed];
+const STATE_NAMES: [&str; 7] = ["new", "checking", "connected", "completed", "failed", "disconnected", "closed"];
 const METHODS: [StunMethod; 3] = [StunMethod::Binding, StunMethod::Allocate, StunMethod::ChannelBind];
 
 /// Malformed / unusual credential layouts. `carries`: the datagram has, at attribute boundaries reachable from
@@ -331,7 +358,7 @@ fn packet_bytes(b: &Built, p: &Pkt, tx_rng: &mut Rng) -> (Vec<u8>, Option<bool>)
             attrs.push(StunAttribute::IceControlling(7));
             if *uc { attrs.push(StunAttribute::UseCandidate); }
             let m = StunMessage { class: StunClass::Request, method: METHODS[(*method % 3) as usize], transaction_id: tx, attributes: attrs };
-            let mut bytes = match mi { Mi::None => m.encode(None, true), Mi::WrongKey => m.encode(Some(b"not-the-local-password"), true), _ => m.encode(Some(b.pwd.as_bytes()), true) }.unwrap();
+            let mut bytes = match mi { Mi::None => m.encode(None, true), Mi::WrongKey => m.encode(Some(b"not-the-local-password"), true), Mi::RemoteKey => m.encode(Some(REMOTE_PWD.as_bytes()), true), _ => m.encode(Some(b.pwd.as_bytes()), true) }.unwrap();
             if *mi == Mi::Corrupt { let n = bytes.len(); bytes[n - 8 - 5] ^= 0x01; }   // inside the HMAC value (FINGERPRINT left stale on purpose)
             (bytes, Some(*user == User::Ok && *mi == Mi::Ok))
         }
@@ -343,6 +370,7 @@ fn packet_bytes(b: &Built, p: &Pkt, tx_rng: &mut Rng) -> (Vec<u8>, Option<bool>)
         }
         What::Ind => (StunMessage { class: StunClass::Indication, method: StunMethod::Binding, transaction_id: [9; 12], attributes: vec![] }.encode(None, true).unwrap(), None),
         What::Garbage(g) => (g.clone(), None), What::Empty => (vec![], None), What::Data(d) => (d.clone(), None),
+        What::Tick => (vec![], None),
         What::Raw { layout, uc } => { let tx: [u8; 12] = tx_rng.bytes(12).try_into().unwrap();
             (build_layout(*layout, *uc, &b.ufrag, &b.pwd, &tx), Some(LAYOUTS[*layout as usize].1)) }
     }
@@ -353,14 +381,100 @@ fn variant(user: User, mi: Mi) -> &'static str {
 }
 
 /// run one case; returns (op-line input, impl output)
+/// drain every socket a datagram of the transport can arrive on; returns the last datagram seen
+fn drain_all(env: &mut Env) -> Option<Vec<u8>> {
+    let mut last = None;
+    for i in 0..4 { if let Some(d) = env.reply(Sk::Udp0, i) { last = Some(d); } }
+    if let Some(d) = env.reply(Sk::Turn, 0) { last = Some(d); }
+    if let Some(d) = env.reply(Sk::Tcp, 0) { last = Some(d); }
+    let mut buf = [0u8; 2048];
+    if let Some(u) = &env.tcp_peer_udp { while let Ok((n, _)) = u.recv_from(&mut buf) { last = Some(buf[..n].to_vec()); } }
+    last
+}
+
+/// the keepalive a tick sent (RFC 8445 §11 / the agent's own composition): checked with the reference crate
+fn keepalive_oracle(run: &mut Run, c: &Case, b: &Built, msg: &[u8], local_prio: Option<u32>) {
+    use stun::message::*;
+    let mut m = Message::new();
+    m.raw = msg.to_vec();
+    if m.decode().is_err() { run.fail("keepalive:undecodable", &c.text(), &hex(msg)); return; }
+    if m.typ != BINDING_REQUEST { run.fail("keepalive:not-binding-request", &c.text(), &format!("{}", m.typ)); }
+    if m.get(stun::attributes::ATTR_SOFTWARE).ok().as_deref() != Some(b"rustrtc") { run.fail("keepalive:software", &c.text(), ""); }
+    if c.rp {
+        let want = format!("{REMOTE_UFRAG}:{}", b.ufrag);
+        if m.get(stun::attributes::ATTR_USERNAME).ok().as_deref() != Some(want.as_bytes()) { run.fail("keepalive:username-is-not-remote-colon-local", &c.text(), &hex(msg)); }
+        if stun::integrity::MessageIntegrity(REMOTE_PWD.as_bytes().to_vec()).check(&mut m).is_err() { run.fail("keepalive:message-integrity-not-under-remote-password", &c.text(), &hex(msg)); }
+        if stun::fingerprint::FINGERPRINT.check(&m).is_err() { run.fail("keepalive:fingerprint", &c.text(), ""); }
+        if let Some(p) = local_prio { if m.get(stun::attributes::ATTR_PRIORITY).ok() != Some(p.to_be_bytes().to_vec()) { run.fail("keepalive:priority-is-not-local-candidate-priority", &c.text(), &hex(msg)); } }
+    }
+}
+
 pub fn exec(env: &mut Env, run: &mut Run, c: &Case, verbose: bool) {
-    let mut tx_rng = Rng::new(0xC06 ^ crate_hash(&c.text()));
-    let mut b = build(env, c, &mut tx_rng);
+    run_batch(env, run, vec![c.clone()], verbose);
+}
+
+/// Build all transports of the batch, let them age past the liveness thresholds (real time), then run the
+/// cases. For WebRTC-mode cases containing unauthenticated requests the case is run a second time with those
+/// requests ERASED: every observation at the remaining events must be identical (metamorphic form of the
+/// property: an unauthenticated request has no influence, also not through later ticks).
+pub fn run_batch(env: &mut Env, run: &mut Run, cases: Vec<Case>, verbose: bool) {
+    let planned: Vec<(Case, Built, Option<(Case, Built)>)> = cases.into_iter().map(|c| {
+        let b = build(env, &c);
+        let mut erased = c.clone();
+        erased.pkts.retain(|p| !is_unauth_request(p));
+        let twin = if c.webrtc && erased.pkts.len() != c.pkts.len() { let eb = build(env, &erased); Some((erased, eb)) } else { None };
+        (c, b, twin)
+    }).collect();
+    std::thread::sleep(Duration::from_millis(AGE_MS));
+    for (c, b, twin) in planned {
+        let obs = exec_built(env, run, &c, b, true, verbose);
+        if let Some((ec, eb)) = twin {
+            let eobs = exec_built(env, run, &ec, eb, false, false);
+            // align: observation after every kept event (and the initial one)
+            let kept: Vec<usize> = std::iter::once(0).chain(c.pkts.iter().enumerate().filter(|(_, p)| !is_unauth_request(p)).map(|(i, _)| i + 1)).collect();
+            let role = if c.controlling { "controlling" } else { "controlled" };
+            for (k, &i) in kept.iter().enumerate() {
+                let (a, e) = (&obs[i], &eobs[k]);
+                let field = if a.state != e.state { "state" } else if a.nom != e.nom { "nomination" } else if a.sel != e.sel { "selected-pair" } else if a.rems != e.rems { "remote-candidates" }
+                    else if a.selsock != e.selsock { "selected-socket" } else if a.pending.len() != e.pending.len() { "pending-transactions" } else { "" };
+                if !field.is_empty() {
+                    let what = match c.pkts.get(i.saturating_sub(1)).map(|p| &p.what) { Some(What::Tick) => "at-keepalive-tick", _ => "at-later-datagram" };
+                    run.fail(&format!("unauth:history:{role}:{field}-differs-{what}"), &c.text(), &format!("with: {} | erased: {}", a.text(), e.text()));
+                    break;
+                }
+            }
+            run.count("metamorphic_erasure_pairs");
+        }
+    }
+}
+
+fn is_unauth_request(p: &Pkt) -> bool {
+    match &p.what { What::Req { user, mi, .. } => !(*user == User::Ok && *mi == Mi::Ok), What::Raw { layout, .. } => !LAYOUTS[*layout as usize].1, _ => false }
+}
+
+fn exec_built(env: &mut Env, run: &mut Run, c: &Case, mut b: Built, emit: bool, verbose: bool) -> Vec<Obs> {
+    let mut tx_rng = b.tx_rng.clone();
     // drain anything left over from earlier cases
-    for i in 0..4 { env.reply(Sk::Udp0, i); } env.reply(Sk::Turn, 0);
+    drain_all(env);
     let mut input = b.init_tokens.clone();
     let mut outs = vec![observe(&b.transport, "-".into())];
+    let mut scratch = Run::new("c06", "/tmp/vh-c06-scratch");
+    let run: &mut Run = if emit { run } else { &mut scratch };
     for p in &c.pkts {
+        if let What::Tick = p.what {
+            let before_ids = b.transport.verif_pending_ids();
+            let t = b.transport.clone(); let rt = &env.rt;
+            let r = crate::catch(std::panic::AssertUnwindSafe(move || rt.block_on(t.verif_run_keepalive_tick())));
+            let new_ids: Vec<[u8; 12]> = b.transport.verif_pending_ids().into_iter().filter(|i| !before_ids.contains(i)).collect();
+            let sent = drain_all(env);
+            let ka = if r.is_err() { "panic" } else if !new_ids.is_empty() { "ka=cred" } else if sent.is_some() { "ka=bare" } else { "ka=none" };
+            input.push_str(&format!(" tick,{}", new_ids.first().map(|i| hex(i)).unwrap_or_else(|| "-".into())));
+            if let Some(msg) = &sent { let lp = b.transport.get_selected_pair().map(|p| p.local.priority); keepalive_oracle(run, c, &b, msg, lp); run.count("keepalive_messages_checked"); }
+            let after = observe(&b.transport, ka.to_string());
+            if verbose { println!("tick -> {}", after.text()); }
+            outs.push(after);
+            continue;
+        }
         let src = env.peer_addr(p.src, p.sock);
         let (bytes, authentic) = packet_bytes(&b, p, &mut tx_rng);
         let sk = match p.sock { Sk::Udp0 | Sk::Udp1 => "udp", Sk::Tcp => "tcp", Sk::Turn => "turn", Sk::Shared => "shared", Sk::Listener => "listener" };
@@ -381,6 +495,8 @@ pub fn exec(env: &mut Env, run: &mut Run, c: &Case, verbose: bool) {
         let is_req = matches!(p.what, What::Req { .. } | What::Raw { .. });
         if let (true, Some(false), false) = (is_req, authentic, c.webrtc) { run.count("unauthenticated_request_in_rtp_mode_not_judged"); }
         if let (true, Some(false), true) = (is_req, authentic, c.webrtc) {
+            if after.selsock != before.selsock { let vv: String = match &p.what { What::Req { user, mi, .. } => variant(*user, *mi).to_string(), What::Raw { layout, .. } => format!("malformed-{}", LAYOUTS[*layout as usize].0), _ => unreachable!() };
+                run.fail(&format!("unauth:{vv}:{role}:selected-socket-changed"), &c.text(), &format!("{} -> {}", before.text(), after.text())); }
             let v: String = match &p.what { What::Req { user, mi, .. } => variant(*user, *mi).to_string(), What::Raw { layout, .. } => format!("malformed-{}", LAYOUTS[*layout as usize].0), _ => unreachable!() };
             let mut eff = vec![];
             if after.rems != before.rems { eff.push("candidate-added"); }
@@ -422,10 +538,11 @@ pub fn exec(env: &mut Env, run: &mut Run, c: &Case, verbose: bool) {
     let out = outs.iter().map(|o| o.text()).collect::<Vec<_>>().join(" ");
     let changed = outs.windows(2).any(|w| (w[0].state, &w[0].sel, w[0].nom, &w[0].rems, &w[0].pending) != (w[1].state, &w[1].sel, w[1].nom, &w[1].rems, &w[1].pending));
     run.case("run", &input, &out, changed);
-    run.count(&format!("cases_{}_{}", if c.controlling { "controlling" } else { "controlled" }, ["new", "checking", "connected"][(c.state % 3) as usize]));
+    run.count(&format!("cases_{}_{}", if c.controlling { "controlling" } else { "controlled" }, STATE_NAMES[(c.state % 7) as usize]));
     for p in &c.pkts { run.count(&format!("pkt_{}", match &p.what { What::Req { user, mi, .. } => format!("req_{}", variant(*user, *mi).replace("bad-integrity", if *mi == Mi::Ok && *user == User::Ok { "authentic" } else { "bad-integrity" })),
-        What::Resp { .. } => "resp".into(), What::Ind => "ind".into(), What::Garbage(_) => "garbage".into(), What::Empty => "empty".into(), What::Data(_) => "data".into(), What::Raw { .. } => "req_raw_layout".into() })); }
+        What::Resp { .. } => "resp".into(), What::Ind => "ind".into(), What::Garbage(_) => "garbage".into(), What::Empty => "empty".into(), What::Data(_) => "data".into(), What::Raw { .. } => "req_raw_layout".into(), What::Tick => "tick".into() })); }
     b.transport.stop();
+    outs
 }
 
 fn crate_hash(s: &str) -> u64 { let mut h = 0xcbf29ce484222325u64; for b in s.bytes() { h ^= b as u64; h = h.wrapping_mul(0x100000001b3); } h }
@@ -447,13 +564,127 @@ fn reply_oracle(run: &mut Run, c: &Case, rep: &[u8], req: &[u8], src: SocketAddr
 
 fn gen_what(rng: &mut Rng, pending: u8) -> What {
     match rng.below(20) {
-        0..=10 => What::Req { user: *rng.pick(&[User::None, User::Wrong, User::Ok, User::Ok]), mi: *rng.pick(&[Mi::None, Mi::Corrupt, Mi::WrongKey, Mi::Ok, Mi::Ok]), uc: rng.chance(1, 2), method: if rng.chance(1, 8) { rng.below(3) as u8 } else { 0 } },
+        0..=10 => What::Req { user: *rng.pick(&[User::None, User::Wrong, User::Ok, User::Ok]), mi: *rng.pick(&[Mi::None, Mi::Corrupt, Mi::WrongKey, Mi::Ok, Mi::Ok, Mi::RemoteKey]), uc: rng.chance(1, 2), method: if rng.chance(1, 8) { rng.below(3) as u8 } else { 0 } },
         11..=14 => What::Resp { tx: if rng.chance(2, 3) && pending > 0 { rng.below(pending as u64) as u8 } else { 200 }, error: rng.chance(1, 3), method: if rng.chance(1, 6) { 1 } else { 0 } },
         15 => if rng.chance(1, 2) { What::Ind } else { What::Raw { layout: rng.below(LAYOUTS.len() as u64) as u8, uc: rng.chance(1, 2) } },
         16 => { let n = rng.range(1, 40) as usize; let mut g = rng.bytes(n); g[0] = rng.below(2) as u8; What::Garbage(g) }
-        17 => What::Empty,
+        17 => if rng.chance(1, 2) { What::Empty } else { What::Tick },
         _ => { let n = rng.range(1, 30) as usize; let mut d = rng.bytes(n); if d[0] < 2 { d[0] = 128; } What::Data(d) }
     }
+}
+
+/// `IceGatherer::probe_stun` (server-reflexive gathering) against a scripted STUN server: only a Binding
+/// success response carrying the probe's own transaction id may be honoured.
+fn probe_cases(env: &mut Env, run: &mut Run, rng: &mut Rng, thorough: bool) {
+    let server = env.rt.block_on(async { UdpSocket::bind("127.0.0.1:0").await.unwrap() });
+    let server_addr = server.local_addr().unwrap();
+    let variants = ["genuine", "other-transaction-id", "error-class", "other-method", "indication", "request-echo", "no-mapped-address", "flipped-id-bit", "right-id-from-other-ip"];
+    let other_ip = env.rt.block_on(async { UdpSocket::bind("127.0.0.2:0").await.unwrap() });
+    let n = if thorough { 40 } else { 6 };
+    for round in 0..n { for (vi, v) in variants.iter().enumerate() {
+        let (transport, _r) = IceTransport::new(rustrtc::RtcConfiguration::default());
+        let before = transport.verif_registered_socket_count();
+        let mapped: SocketAddr = format!("203.0.113.{}:{}", 1 + rng.below(250), 1024 + rng.below(60000)).parse().unwrap();
+        let t = transport.clone();
+        let (res, (req, reply)) = env.rt.block_on(async {
+            let srv = async {
+                let mut buf = [0u8; 2048];
+                let Ok(Ok((n, from))) = tokio::time::timeout(Duration::from_secs(2), server.recv_from(&mut buf)).await else { return (vec![], vec![]) };
+                let req = buf[..n].to_vec();
+                let mut tx: [u8; 12] = req[8..20].try_into().unwrap();
+                let (cls, meth) = match *v { "error-class" => (StunClass::ErrorResponse, StunMethod::Binding), "other-method" => (StunClass::SuccessResponse, StunMethod::Allocate),
+                    "indication" => (StunClass::Indication, StunMethod::Binding), "request-echo" => (StunClass::Request, StunMethod::Binding), _ => (StunClass::SuccessResponse, StunMethod::Binding) };
+                if *v == "other-transaction-id" { tx = [0x42; 12]; }
+                if *v == "flipped-id-bit" { tx[11] ^= 1; }
+                let attrs = if *v == "no-mapped-address" { vec![] } else { vec![StunAttribute::XorMappedAddress(mapped)] };
+                let reply = StunMessage { class: cls, method: meth, transaction_id: tx, attributes: attrs }.encode(None, true).unwrap();
+                if *v == "right-id-from-other-ip" { let _ = other_ip.send_to(&reply, from).await; } else { let _ = server.send_to(&reply, from).await; }
+                (req, reply)
+            };
+            tokio::join!(t.verif_probe_stun(server_addr), srv)
+        });
+        if req.is_empty() { run.count("probe_request_not_seen"); continue; }
+        let got = match &res { Ok(Some(c)) => format!("some {}", addr3(&c.address)), Ok(None) => "none".to_string(), Err(_) => "none".to_string() };
+        let registered = transport.verif_registered_socket_count() > before;
+        run.case("probe", &format!("{} {} {}", hex(&req[8..20]), hex(&reply), (*v != "right-id-from-other-ip") as u8), &got, got != "none");
+        run.count(&format!("probe_{v}_{}", got.split(' ').next().unwrap()));
+        let honoured = got != "none" || registered;
+        if honoured && vi != 0 { run.fail(&format!("response:honoured-without-matching-transaction:probe-stun:{v}"), &format!("probe {v}"), &format!("{got} registered={registered}")); }
+        if vi == 0 && (got != format!("some {}", addr3(&mapped)) || !registered) { run.fail("response:genuine-probe-response-not-honoured", &format!("probe {v}"), &got); }
+        // the probe request itself (a message the agent composes): Binding request, SOFTWARE, FINGERPRINT, no credentials
+        let mut m = stun::message::Message::new(); m.raw = req.clone();
+        if m.decode().is_err() || m.typ != stun::message::BINDING_REQUEST || stun::fingerprint::FINGERPRINT.check(&m).is_err()
+            || m.get(stun::attributes::ATTR_SOFTWARE).ok().as_deref() != Some(b"rustrtc") || m.contains(stun::attributes::ATTR_MESSAGE_INTEGRITY) {
+            run.fail("probe-request:malformed", &format!("probe {v}"), &hex(&req)); }
+        transport.stop();
+        let _ = round;
+    }}
+}
+
+/// `attach_demuxed_tcp_stream` (shared passive TCP listener): a new inbound connection whose first frame is an
+/// UNAUTHENTICATED Binding request (the routing ufrag is public) must not touch candidates / pair / nomination /
+/// state / published socket; an authenticated one may. What it does to the gatherer's stream table before
+/// authentication is recorded as an observation (outside the effects the property names).
+fn demux_tcp_cases(env: &mut Env, run: &mut Run) {
+    for controlling in [false, true] { for state in [0u8, 1, 2, 5] { for first in ["unauth-no-mi", "unauth-wrong-key", "garbage", "genuine", "genuine-use-candidate"] { for with_genuine_before in [false, true] {
+        let (transport, _r) = IceTransport::new(rustrtc::RtcConfiguration::default());
+        transport.set_role(if controlling { IceRole::Controlling } else { IceRole::Controlled });
+        transport.verif_set_state(STATES[state as usize]);
+        let lp = transport.local_parameters();
+        let mk = |user_ok: bool, key: Option<&[u8]>, uc: bool| { let mut attrs = vec![StunAttribute::Username(if user_ok { format!("{}:peer", lp.username_fragment) } else { "zzzz:peer".into() }), StunAttribute::Priority(1)];
+            if uc { attrs.push(StunAttribute::UseCandidate); }
+            StunMessage { class: StunClass::Request, method: StunMethod::Binding, transaction_id: [7; 12], attributes: attrs }.encode(key, true).unwrap() };
+        let (listen_addr, conns) = env.rt.block_on(async {
+            let l = TcpListener::bind("127.0.0.1:0").await.unwrap();
+            let la = l.local_addr().unwrap();
+            let mut v = vec![];
+            for _ in 0..2 { let c = TcpStream::connect(la).await.unwrap(); let (s, p) = l.accept().await.unwrap(); v.push((c, s, p)); }
+            (la, v)
+        });
+        transport.verif_add_local_candidate(IceCandidate::host_tcp(listen_addr, 1, TcpType::Passive));
+        let mut conns = conns.into_iter();
+        let mut keep = vec![];
+        if with_genuine_before {
+            let (c, srv, peer) = conns.next().unwrap();
+            env.rt.block_on(transport.verif_attach_demuxed_tcp_stream(srv, peer, listen_addr, mk(true, Some(lp.password.as_bytes()), true)));
+            keep.push(c);
+        }
+        let before = observe(&transport, "-".into());
+        let streams_before = transport.verif_tcp_streams();
+        let (c, srv, peer) = conns.next().unwrap();
+        let pkt = match first { "unauth-no-mi" => mk(true, None, true), "unauth-wrong-key" => mk(true, Some(b"nope"), true), "garbage" => vec![0, 1, 2, 3],
+            "genuine" => mk(true, Some(lp.password.as_bytes()), false), _ => mk(true, Some(lp.password.as_bytes()), true) };
+        let t = transport.clone(); let rt = &env.rt;
+        let r = crate::catch(std::panic::AssertUnwindSafe(move || rt.block_on(t.verif_attach_demuxed_tcp_stream(srv, peer, listen_addr, pkt))));
+        keep.push(c);
+        let after = observe(&transport, "-".into());
+        let streams_after = transport.verif_tcp_streams();
+        let role = if controlling { "controlling" } else { "controlled" };
+        let case = format!("demux-tcp role={role} state={} first={first} genuine-before={with_genuine_before}", STATE_NAMES[state as usize]);
+        if r.is_err() { run.fail("unauth:demux-tcp:panic", &case, ""); }
+        if !first.starts_with("genuine") {
+            let field = if after.state != before.state { "state-changed" } else if after.nom != before.nom { "nomination-completed" } else if after.sel != before.sel { "selected-pair-changed" }
+                else if after.rems != before.rems { "candidate-added" } else if after.selsock != before.selsock { "selected-socket-changed" } else { "" };
+            if !field.is_empty() { run.fail(&format!("unauth:demux-tcp-first-frame:{role}:{field}"), &case, &format!("{} -> {}", before.text(), after.text())); }
+            if streams_after != streams_before { run.count("observation_unauthenticated_tcp_connection_registered_before_authentication");
+                if with_genuine_before { run.count("observation_unauthenticated_tcp_connection_replaced_genuine_stream_in_table"); } }
+        } else if !controlling && after.nom != Some(true) { run.fail("demux-tcp:genuine-first-frame-not-honoured", &case, &after.text()); }
+        run.count(&format!("demux_tcp_{first}"));
+        transport.stop();
+        drop(keep);
+    }}}}
+}
+
+fn gen_tick_case(rng: &mut Rng) -> Case {
+    // Connected / Disconnected transports with a selected pair, datagrams of all kinds interleaved with ticks
+    let mut c = gen_case(rng);
+    c.state = *rng.pick(&[2u8, 5, 5, 2, 3, 4]);
+    c.locals |= 1; c.remotes |= 1;
+    if rng.chance(4, 5) { c.selected = Some((0, 0)); }
+    let n = rng.range(2, 6) as usize;
+    c.pkts = (0..n).map(|i| if i % 2 == 1 || rng.chance(1, 3) { Pkt { sock: Sk::Udp0, src: 0, what: What::Tick } }
+        else { let sock = *rng.pick(&[Sk::Udp0, Sk::Udp0, Sk::Udp1, Sk::Tcp, Sk::Turn]); Pkt { sock, src: rng.below(4) as u8, what: gen_what(rng, c.pending) } }).collect();
+    c
 }
 
 fn gen_case(rng: &mut Rng) -> Case {
@@ -464,7 +695,7 @@ fn gen_case(rng: &mut Rng) -> Case {
     let selected = if nloc > 0 && nrem > 0 && rng.chance(1, 2) { Some((rng.below(nloc as u64) as u8, rng.below(nrem as u64) as u8)) } else { None };
     let n = rng.range(1, 4) as usize;
     let pkts = (0..n).map(|_| { let sock = *rng.pick(&[Sk::Udp0, Sk::Udp0, Sk::Udp0, Sk::Udp1, Sk::Tcp, Sk::Turn, Sk::Shared, Sk::Listener]); Pkt { sock, src: rng.below(4) as u8, what: gen_what(rng, pending) } }).collect();
-    Case { controlling: rng.chance(1, 2), state: rng.below(3) as u8, latching: rng.chance(1, 4), nominated: rng.chance(1, 4), webrtc: rng.chance(4, 5), locals, remotes, selected, pending, pkts }
+    Case { controlling: rng.chance(1, 2), state: rng.below(7) as u8, latching: rng.chance(1, 4), nominated: rng.chance(1, 4), webrtc: rng.chance(4, 5), tmo: rng.chance(1, 4) as u8, rp: rng.chance(1, 3), locals, remotes, selected, pending, pkts }
 }
 
 /// `verify_message_integrity`, `username_from_stun_bytes`, `peer_ufrag_from_binding_request` and
@@ -527,45 +758,66 @@ pub fn run(args: &Args) {
     }
     let mut run = Run::new("c06", &args.out);
     let mut rng = Rng::new(args.seed);
-    // (1) exhaustive request matrix: user x mi x uc x known/unknown source x state x role x socket kind, one packet each
-    for controlling in [false, true] { for state in 0..3u8 { for sock in [Sk::Udp0, Sk::Tcp, Sk::Turn, Sk::Shared, Sk::Listener] { for known in [false, true] {
-        for user in [User::None, User::Wrong, User::Ok] { for mi in [Mi::None, Mi::Corrupt, Mi::WrongKey, Mi::Ok] { for uc in [false, true] {
+    let mut cases: Vec<Case> = vec![];
+    let base = |controlling: bool, state: u8| Case { controlling, state, latching: false, nominated: false, webrtc: true, tmo: 0, rp: false, locals: 0b11101, remotes: 0, selected: None, pending: 1, pkts: vec![] };
+    // (1) exhaustive request matrix: user x mi x uc x known/unknown source x ALL SEVEN states x role x socket kind, one packet each
+    for controlling in [false, true] { for state in 0..7u8 { for sock in [Sk::Udp0, Sk::Tcp, Sk::Turn, Sk::Shared, Sk::Listener] { for known in [false, true] {
+        for user in [User::None, User::Wrong, User::Ok] { for mi in [Mi::None, Mi::Corrupt, Mi::WrongKey, Mi::Ok, Mi::RemoteKey] { for uc in [false, true] {
+            if state >= 3 && !(sock == Sk::Udp0 || sock == Sk::Tcp) { continue; }
             let remotes = if !known { 0 } else if sock == Sk::Tcp { 8 } else { 1 };
-            let c = Case { controlling, state, latching: false, nominated: false, webrtc: true, locals: 0b11101, remotes, selected: None, pending: 1,
-                pkts: vec![Pkt { sock, src: 0, what: What::Req { user, mi, uc, method: 0 } }] };
-            exec(&mut env, &mut run, &c, false);
+            cases.push(Case { remotes, rp: mi == Mi::RemoteKey || uc, pkts: vec![Pkt { sock, src: 0, what: What::Req { user, mi, uc, method: 0 } }], ..base(controlling, state) });
         }}}
     }}}}
+    run.count_n("exhaustive_request_matrix", cases.len() as u64);
     // malformed / unusual credential layouts x ±USE-CANDIDATE x roles x states x known/unknown source x {UDP, accepted TCP stream}
-    for layout in 0..LAYOUTS.len() as u8 { for uc in [false, true] { for controlling in [false, true] { for state in 0..3u8 { for known in [false, true] { for sock in [Sk::Udp0, Sk::Tcp] {
+    let n0 = cases.len();
+    for layout in 0..LAYOUTS.len() as u8 { for uc in [false, true] { for controlling in [false, true] { for state in [0u8, 1, 2, 5] { for known in [false, true] { for sock in [Sk::Udp0, Sk::Tcp] {
         let remotes = if !known { 0 } else if sock == Sk::Tcp { 8 } else { 1 };
-        let c = Case { controlling, state, latching: false, nominated: false, webrtc: true, locals: 0b11101, remotes, selected: None, pending: 1,
-            pkts: vec![Pkt { sock, src: 0, what: What::Raw { layout, uc } }] };
-        exec(&mut env, &mut run, &c, false);
+        cases.push(Case { remotes, pkts: vec![Pkt { sock, src: 0, what: What::Raw { layout, uc } }], ..base(controlling, state) });
     }}}}}}
-    run.count_n("exhaustive_malformed_credential_layouts", LAYOUTS.len() as u64 * 2 * 2 * 3 * 2 * 2);
-    run.count_n("exhaustive_request_matrix", 2 * 3 * 5 * 2 * 3 * 4 * 2);
+    run.count_n("exhaustive_malformed_credential_layouts", (cases.len() - n0) as u64);
+    // liveness: {Connected, Disconnected} x fresh/aged x timeout kind x every kind of datagram followed by a keepalive tick
+    let n0 = cases.len();
+    for controlling in [false, true] { for state in [2u8, 5] { for tmo in [0u8, 1] { for rp in [false, true] { for webrtc in [true, false] { for sel in [None, Some((0u8, 0u8))] {
+        let whats = [None, Some(What::Req { user: User::None, mi: Mi::None, uc: false, method: 0 }), Some(What::Req { user: User::Ok, mi: Mi::WrongKey, uc: true, method: 0 }),
+            Some(What::Req { user: User::Ok, mi: Mi::RemoteKey, uc: false, method: 0 }), Some(What::Req { user: User::Ok, mi: Mi::Ok, uc: false, method: 0 }),
+            Some(What::Raw { layout: 0, uc: true }), Some(What::Resp { tx: 0, error: false, method: 0 }), Some(What::Resp { tx: 200, error: false, method: 0 }),
+            Some(What::Ind), Some(What::Garbage(vec![0, 1, 2, 3])), Some(What::Empty), Some(What::Data(vec![0x80, 1, 2, 3]))];
+        for w in whats { for src in [0u8, 1] {
+            let mut pkts = vec![];
+            if let Some(w) = w.clone() { pkts.push(Pkt { sock: Sk::Udp0, src, what: w }); }
+            pkts.push(Pkt { sock: Sk::Udp0, src: 0, what: What::Tick });
+            pkts.push(Pkt { sock: Sk::Udp0, src: 0, what: What::Tick });
+            cases.push(Case { webrtc, tmo, rp, locals: 0b00001, remotes: 1, selected: sel, pkts, ..base(controlling, state) });
+        }}
+    }}}}}}
+    run.count_n("exhaustive_liveness_tick_matrix", (cases.len() - n0) as u64);
     // responses: solicited / unsolicited / replayed, success / error, all roles and states
-    for controlling in [false, true] { for state in 0..3u8 { for error in [false, true] { for tx in [0u8, 1, 200] { for sock in [Sk::Udp0, Sk::Turn] {
+    for controlling in [false, true] { for state in 0..7u8 { for error in [false, true] { for tx in [0u8, 1, 200] { for sock in [Sk::Udp0, Sk::Turn] {
         let r = Pkt { sock, src: 1, what: What::Resp { tx, error, method: 0 } };
-        let c = Case { controlling, state, latching: false, nominated: false, webrtc: true, locals: 0b1001, remotes: 2, selected: None, pending: 2, pkts: vec![r.clone(), r.clone(), r] };
-        exec(&mut env, &mut run, &c, false);
+        cases.push(Case { locals: 0b1001, remotes: 2, pending: 2, pkts: vec![r.clone(), r.clone(), r], ..base(controlling, state) });
     }}}}}
     // latching and re-nomination corners
     for webrtc in [true, false] { for controlling in [false, true] { for nominated in [false, true] { for uc in [false, true] { for user in [User::None, User::Ok] {
-        let c = Case { controlling, state: 2, latching: true, nominated, webrtc, locals: 0b0011, remotes: 0b10011, selected: Some((0, 0)), pending: 0,
+        cases.push(Case { latching: true, nominated, webrtc, locals: 0b0011, remotes: 0b10011, selected: Some((0, 0)), pending: 0,
             pkts: vec![Pkt { sock: Sk::Udp0, src: 1, what: What::Req { user, mi: if user == User::Ok { Mi::Ok } else { Mi::None }, uc, method: 0 } },
-                       Pkt { sock: Sk::Udp1, src: 3, what: What::Req { user, mi: Mi::None, uc, method: 0 } }] };
-        exec(&mut env, &mut run, &c, false);
+                       Pkt { sock: Sk::Udp1, src: 3, what: What::Req { user, mi: Mi::None, uc, method: 0 } }], ..base(controlling, 2) });
     }}}}}
     // the pre-fix witness in RTP mode (where unauthenticated probes are by design still honoured)
-    exec(&mut env, &mut run, &Case { controlling: false, state: 0, latching: false, nominated: false, webrtc: false, locals: 0b0001, remotes: 0, selected: None, pending: 0,
-        pkts: vec![Pkt { sock: Sk::Udp0, src: 0, what: What::Req { user: User::None, mi: Mi::None, uc: true, method: 0 } }] }, false);
-    raw_auth_stream(&mut env, &mut run, &mut rng, args.tier_thorough);
-    // (2) random multi-packet cases
+    cases.push(Case { webrtc: false, locals: 0b0001, pending: 0, pkts: vec![Pkt { sock: Sk::Udp0, src: 0, what: What::Req { user: User::None, mi: Mi::None, uc: true, method: 0 } }], ..base(false, 0) });
+    // (2) random multi-packet cases, with and without ticks
     let n = if args.tier_thorough { 40_000 } else { 2_500 };
-    for _ in 0..n { let c = gen_case(&mut rng); exec(&mut env, &mut run, &c, false); }
+    for i in 0..n { cases.push(if i % 3 == 0 { gen_tick_case(&mut rng) } else { gen_case(&mut rng) }); }
+    // transports are built per batch and aged AGE_MS of real time before use
+    while !cases.is_empty() {
+        let rest = cases.split_off(cases.len().min(6000));
+        let batch = std::mem::replace(&mut cases, rest);
+        run_batch(&mut env, &mut run, batch, false);
+    }
+    raw_auth_stream(&mut env, &mut run, &mut rng, args.tier_thorough);
+    probe_cases(&mut env, &mut run, &mut rng, args.tier_thorough);
+    demux_tcp_cases(&mut env, &mut run);
     run.exhaustive = true;
-    run.notes.insert("exhaustive_scope".into(), serde_json::json!("request matrix USERNAME{none,wrong,correct} x MESSAGE-INTEGRITY{none,corrupted,wrong-key,correct} x ±USE-CANDIDATE x known/unknown source x {New,Checking,Connected} x {controlled,controlling} x {UDP, shared UDP mux, TCP listener, accepted TCP stream, TURN relay}; responses {pending, second pending, unknown id} x {success,error} x 3 repetitions x roles x states"));
+    run.notes.insert("exhaustive_scope".into(), serde_json::json!("request matrix USERNAME{none,wrong,correct} x MESSAGE-INTEGRITY{none,corrupted,wrong-key,correct,remote-password} x ±USE-CANDIDATE x known/unknown source x all 7 transport states x {controlled,controlling} x {UDP, shared UDP mux, TCP listener, accepted TCP stream, TURN relay}; 28 malformed credential layouts; liveness matrix {Connected,Disconnected} x timeouts x remote-params x mode x selected pair x 12 datagram kinds x 2 sources followed by two keepalive ticks; responses {pending, second pending, unknown id} x {success,error} x 3 repetitions x roles x states"));
     run.finish();
 }
